@@ -18,7 +18,7 @@ ID = "C12"
 TIERS = {"quick": {"n": 2500, "chunk": 60}, "thorough": {"n": 100000, "chunk": 300, "wall_cap": 3000}}
 RULE = (
     "each scenario is a seeded history (3-8 ops, 1 in 8 up to 20) over {add_named_paths of 1-5 generated members, identical re-add, replace, remove, restart; 15% of the adds first fail with the group-file write torn by ENOSPC after 0/50/90/100% and are retried} on 2 group names; "
-    "members carry id/Id/ID/name/Name/NAME identities (some with a lower-precedence decoy key equal to a sibling's identity), outer/inner comments and newlines; after every op all lookups "
+    "members carry id/Id/ID/name/Name/NAME identities (some with a lower-precedence decoy key equal to a sibling's identity) in a leading, second or trailing outer comment, inner comments (some looking like metadata) and newlines; after every op all lookups "
     "are compared with the model via a live and a fresh instance and the manifest is read from disk. Non-trivial = some group was re-added or replaced, or a lookup by identity was compared; "
     "distinct = distinct op-class sequences (op, group, change class, member count, identity spellings used)."
 )
@@ -43,7 +43,7 @@ BODIES = [
 ]
 
 
-def gen_member_text(rng, ident, decoy=None):
+def gen_member_text(rng, ident, decoy=None, inner_decoy=None):
     parts = []
     if ident is not None:
         key = rng.choice(KEYS)
@@ -53,17 +53,31 @@ def gen_member_text(rng, ident, decoy=None):
             fields.append(f"{dkey}: {decoy}")
         if rng.random() < 0.4:
             fields.append(rng.choice(["description: checks the second column", "author: someone", "note: 3 things to see"]))
-        parts.append("~ " + rng.choice([" ", "\n  "]).join(fields) + " ~")
+        idc = "~ " + rng.choice([" ", "\n  "]).join(fields) + " ~"
+        # where the identifying outer comment sits: leading (usual), second after a plain remark, or trailing
+        place = rng.choice(["lead"] * 6 + ["second", "trail"])
     elif rng.random() < 0.3:
         parts.append("~ just some words without any field ~")
     n = rng.randint(1, 3)
     comps = [rng.choice(BODIES) for _ in range(n)]
-    if rng.random() < 0.35:
+    r = rng.random()
+    if r < 0.3:
         comps.insert(rng.randint(0, len(comps)), "~ inner remark ~")
+    elif r < 0.45:
+        # an INNER comment that looks like metadata: it never identifies the csvpath
+        comps.insert(rng.randint(0, len(comps)), f"~ {rng.choice(['id', 'name'])}: {inner_decoy or 'zz9'} ~")
     sep = rng.choice([" ", "\n    ", "\n"])
     scan = rng.choice(["*", "1*", "0-3", "1+3"])
     body = f"$[{scan}][" + sep + sep.join(comps) + sep + "]"
-    parts.append(body)
+    if ident is not None:
+        if place == "lead":
+            parts += [idc, body]
+        elif place == "second":
+            parts += ["~ a remark that comes first ~", idc, body]
+        else:
+            parts += [body, idc]
+    else:
+        parts.append(body)
     return rng.choice(["\n", " ", "\n\n"]).join(parts)
 
 
@@ -91,7 +105,9 @@ def gen_members(rng, tag):
         decoy = None
         if ident is not None and len(named) > 1 and rng.random() < 0.3:
             decoy = rng.choice([x for x in named if x != ident])
-        out.append({"ident": ident, "text": gen_member_text(rng, ident, decoy)})
+        # (an inner pseudo-identity, when generated, is a sibling's real identity or one nobody has)
+        inner = rng.choice([x for x in named if x != ident] or [None]) if rng.random() < 0.6 else None
+        out.append({"ident": ident, "text": gen_member_text(rng, ident, decoy, inner)})
     return out
 
 
